@@ -112,7 +112,10 @@ def prune_cache(keep=24):
         dirs = sorted(glob.glob(os.path.join(CACHE, "lib-*")), key=os.path.getmtime)
     except OSError:
         return
-    for d in dirs[:-keep]:
+    # libraries built from /repo itself are kept longer than those built from scratch worktrees (VERIF_REPO)
+    main = [d for d in dirs if os.path.exists(os.path.join(d, "from_repo"))]
+    other = [d for d in dirs if d not in main]
+    for d in other[:-keep] + main[:-6]:
         shutil.rmtree(d, ignore_errors=True)
     try:
         bins = sorted(glob.glob(os.path.join(CACHE, "bin", "*")), key=os.path.getmtime)
@@ -162,6 +165,8 @@ def build_lib(variant="real", sanitize=True):
         if r.returncode != 0:
             raise RuntimeError("ar failed: " + r.stdout)
         shutil.rmtree(os.path.join(libdir, "obj"), ignore_errors=True)
+        if os.path.realpath(REPO) == "/repo":
+            open(os.path.join(libdir, "from_repo"), "w").close()
         log("[pmlib] built %s in %.1fs" % (os.path.basename(libdir), time.time() - t0))
     prune_cache()
     return libdir
